@@ -71,6 +71,24 @@ _EXTRA = {
 }
 for _p, _t in _EXTRA.items():
     CHECKS[_p] = dict(CHECKS[_p]); CHECKS[_p]['text'] = CHECKS[_p]['text'] + _t
+
+# obligations added in the second build session (round-5 seeds and the former "not decided" list): appended likewise
+_EXTRA2 = {
+ 'C02': ' Plus: bank-level operations that are not balance operations never move the share totals (C02.g: socialize_loss, accrue_interest, cache refreshers, both configure paths); close_bank preconditions (C02.d); a closed-world scan of every MIR assignment to share totals / positions (C02.e, auxiliary: an unclassified writer makes the property undecided).',
+ 'C03': ' Plus the Token-2022 transfer-fee gross-up calculate_pre_fee_amount for all amounts, caps and rates (C03.f: the vault receives at least the amount booked), replayed against the real SPL fee function.',
+ 'C05': ' Plus the four wrapper legs in their liquidation modes at kernel level with native replay (C05.f: a seizure within the deposit never creates a debt; debit/credit within rounding of the computed amounts) and the constraint set of the liquidate instruction (C05.e).',
+ 'C07': ' Plus the bankruptcy handler end to end in handler mode (C07.b: authorisation, debt read from the active position of THIS bank, insurance first = min(bad debt, insurance available) rounded up (or its pre-fee image), socialized remainder, exactly the bad debt repaid, route insurance vault -> liquidity vault, account disabled, bank killed iff wiped out), settlement of a wiped-out bank cannot revert (C07.d), killed state terminal on the frozen configuration path too (C07.e.frozen), constraint set (C07.g).',
+ 'C10': ' Plus the four bracket instructions\' own wiring (C10.e: receiver key, deleverage flag, discriminator pair, ignore_healthy, error propagation) and the constraint sets of the bracket / inner instructions (C10.h).',
+ 'C11': ' Plus the constraint sets of the two flash-loan instructions (C11.g).',
+ 'C12': ' Plus the daily deleverage window kernel update_withdrawn_equity for all timestamps and counters with native replay (C12.d.window) and the signer-role constraint sets of every delegated-admin instruction (C12.r).',
+ 'C13': ' Plus the six bank initialisers validate the bank they wrote (C13.d.add_bank*), the killed state is terminal on both configuration paths (C13.e), constraint sets (C13.g).',
+ 'C15': ' Plus the constraint sets of the four pause instructions (C15.d).',
+ 'C16': ' Plus asset-tag compatibility over 16 symbolic slots in the quick tier (C16.d, MS twin of the Kani harness), closability (C16.e: can_be_closed over 16 slots and the close handler), constraint sets of close / migrate / close_balance (C16.i).',
+ 'C17': ' Plus the remaining-capacity function behind \'up to limit\' deposits (C17.b.capacity: never fails on a sane bank, equals max(0, floor(limit - deposits - 1)), native replay).',
+ 'C19': ' Plus the emissions withdrawal handlers (C19.d.withdraw*: settled amount only, emissions vault -> destination, permissionless variant only to the ATA of the wallet the owner registered) and the constraint sets of every fee / emissions instruction (C19.b).',
+}
+for _p, _t in _EXTRA2.items():
+    CHECKS[_p] = dict(CHECKS[_p]); CHECKS[_p]['text'] = CHECKS[_p]['text'] + _t
 # thorough tier only: a Kani/CBMC harness re-decides one obligation of these properties on the compiled code (second engine)
 for _p, _t in (('C09', ' Thorough tier adds C09.k: Kani/CBMC harness on SwitchboardPullPriceFeed::load_checked with the REAL byte-level parsing of a symbolic account.'),
                ('C15', ' Thorough tier adds C15.k: the same inductive step decided by Kani/CBMC on the compiled code.'),
